@@ -549,6 +549,13 @@ class TransferManager(BaseManager):
 
         # Downloads will just get remotely queued
         for download in downloads:
+            # An attempt to queue the download that is still in progress (for
+            # example waiting for the peer connection) should not be replaced:
+            # the previous task would keep running without anything being able
+            # to cancel it
+            if download._remotely_queue_task is not None and not download._remotely_queue_task.done():
+                continue
+
             download._remotely_queue_task = asyncio.create_task(
                 self._queue_remotely(download),
                 name=f'queue-remotely-{task_counter()}'
@@ -559,6 +566,9 @@ class TransferManager(BaseManager):
 
         # Uploads should be initialized and uploaded if possible
         for upload in uploads[:free_upload_slots]:
+            if upload._transfer_task is not None and not upload._transfer_task.done():
+                continue
+
             upload._transfer_task = asyncio.create_task(
                 self._initialize_upload(upload),
                 name=f'initialize-upload-{task_counter()}'
